@@ -79,16 +79,18 @@ func cmdRun(args []string) {
 		ml = strings.Split(*models, ",")
 	}
 	t0 := time.Now()
-	prog, err := sym.Load(*root, m, ml, nil)
+	p := *pkg
+	if p == "" {
+		p = m.Path
+	} else if !strings.HasPrefix(p, m.Path) {
+		p = pkgPath(m, p)
+	}
+	prog, err := sym.Load(*root, m, ml, []string{p})
 	if err != nil {
 		fmt.Fprintln(os.Stderr, err)
 		os.Exit(2)
 	}
 	fmt.Fprintf(os.Stderr, "loaded in %v\n", time.Since(t0))
-	p := *pkg
-	if p == "" {
-		p = m.Path
-	}
 	fn, err := prog.Harness(p, *harness)
 	if err != nil {
 		fmt.Fprintln(os.Stderr, err)
